@@ -247,8 +247,8 @@ class Oracle:
             recs = [['test', x[1], x[2] == 'T']]
         elif x[0] == 'fvset':
             recs = [['fvset', x[1], x[2], res == 'e:Exception']]
-        if res.startswith('CRASH'):
-            self.bad('c11:crash', f'op {x} escaped with {res}')
+        if res.startswith('CRASH') or res.startswith('HANG'):
+            self.bad('c11:crash', f'op #{i} {x}: the library crashed or hung outside a guarded call: {res}')
         self.replay_records(recs)
         if x[0] == 'next' and res != self.last_res:
             self.bad('c11:harness', f'result {res} vs record {self.last_res}')
@@ -279,7 +279,10 @@ class Oracle:
             self.bad('c11:current_tt', f'after op #{i} {x} main.current_tt is {parts[1][4:]}, not the main thread')
         q = ''.join(f'({t},{r})' for t, _, r in sorted(self.queue))
         if parts[3] != 'q=' + q:
-            self.bad('c11:sched', f'scheduler holds {parts[3][2:]} after op #{i} {x}; scheduled and not yet woken: {q}')
+            hint = (' — a waiter may be scheduled only by signal/unhang of ITS OWN condition (test true) or by the '
+                    'binding of ITS flow variable' if x[0] in ('sig', 'unh', 'fvset', 'next', 'tick') else '')
+            self.bad('c11:sched', f'scheduler holds {parts[3][2:]} after op #{i} {x}; scheduled and not yet woken: {q}'
+                     + hint)
         cs = ';'.join(f'c{j}={"T" if self.test[j] else "F"}[{" ".join(map(str, w))}]' for j, w in enumerate(self.waiting))
         if parts[4] != cs:
             self.bad('c11:cond', f'conditions {parts[4]} after op #{i} {x}; expected {cs}')
@@ -375,8 +378,8 @@ class Check(common.Check):
 
     def gen_one(self, rng):
         nr = rng.choice([1, 2, 2, 3, 3, 4])
-        nc = rng.choice([0, 1, 1, 2])
-        nf = rng.choice([0, 0, 1])
+        nc = rng.choice([0, 1, 2, 2])
+        nf = rng.choice([0, 1, 1])
         rts = []
         for i in range(nr):
             gen = rng.random() < 0.8
@@ -425,6 +428,19 @@ class Check(common.Check):
             rel = ([['test', w[1], 'T'], ['sig', w[1]]] if w[0] == 'wait' else [['fvset', w[1], 'n2']])
             head = rng.choice([[['rop', a, 'play'], ['tick']], [['next', a, 'N']]])
             ops = [list(x) for x in head + rel + [['tick'], ['tick']]] + ops[:rng.randint(0, 8)]
+        if nc + nf >= 2 and rng.random() < 0.25:
+            # two conditions / flow variables alive at once: r waits on one, the OTHER one is signalled (true test)
+            # or bound first; r must stay parked until its own condition is signalled
+            r = rng.randrange(nr)
+            objs = [('c', i) for i in range(nc)] + [('f', i) for i in range(nf)]
+            mine, other = rng.sample(objs, 2)
+            w = ['wait', mine[1]] if mine[0] == 'c' else ['fvget', mine[1]]
+            rts[r] = {'gen': True, 'inval': rts[r]['inval'], 'script': [w, ['here'], ['y', 'n1']]}
+            rel_other = ([['test', other[1], 'T'], rng.choice([['sig', other[1]], ['unh', other[1]]])]
+                         if other[0] == 'c' else [['fvset', other[1], 'n3']])
+            rel_mine = ([['test', mine[1], 'T'], ['sig', mine[1]]] if mine[0] == 'c' else [['fvset', mine[1], 'n2']])
+            head = rng.choice([[['rop', r, 'play'], ['tick']], [['next', r, 'N']]])
+            ops = [list(x) for x in head + rel_other + [['tick']] + rel_mine + [['tick'], ['tick']]] + ops[:rng.randint(0, 8)]
         if (nc or nf) and rng.random() < 0.15:
             # timed scenario: numeric yield woken by the scheduler, pause + resume before the next
             # wake-up is due, then a wait on a condition / flow variable, signalled later
